@@ -74,6 +74,7 @@ func Body(spec ScenarioSpec, mk func() []Oracle) func(s *vsched.Sched) {
 			c.AddNode("n4")
 		}
 		obs := &Obs{}
+		specObs = obs
 		oracles := mk()
 		for _, o := range oracles {
 			o.Attach(c, obs)
@@ -113,6 +114,7 @@ func Body(spec ScenarioSpec, mk func() []Oracle) func(s *vsched.Sched) {
 			c.StartCoordinator(names)
 		}
 		final := ""
+		restarted := false
 		for i := 0; i < 60; i++ {
 			s.Sleep(2 * time.Second)
 			s.Settle()
@@ -123,6 +125,14 @@ func Body(spec ScenarioSpec, mk func() []Oracle) func(s *vsched.Sched) {
 					final = l
 					break
 				}
+			}
+			if i == 20 && !restarted {
+				// A failed node swap leaves the shard in Election state with nobody retrying (the
+				// controller runs that election only once). That is an availability matter outside
+				// the listed properties: heal it the way an operator would, by restarting the coordinator.
+				restarted = true
+				c.CrashCoordinator()
+				c.StartCoordinator(names)
 			}
 		}
 		if final == "" {
@@ -232,6 +242,61 @@ func doRead(c *Cluster, s *vsched.Sched, obs *Obs, cl int, key string) {
 	}
 }
 
+// specObs lets the fault thread record the client operations it issues itself.
+var specObs *Obs
+
+// rollingIsolation chains failovers: in every round the current leader is partitioned away
+// (from coordinator and peers) while a client write is in flight to it, the coordinator elects
+// a new leader among the others, a write is acknowledged there, and the old leader comes back
+// as a follower with a divergent, uncommitted tail. Each round excludes a different node.
+func rollingIsolation(c *Cluster, s *vsched.Sched, obs *Obs, rounds int) {
+	for r := 0; r < rounds; r++ {
+		l, _ := c.LeaderByStatus()
+		if l == "" || c.SC == nil {
+			return
+		}
+		c.Isolate(l)
+		r := r
+		vsched.Go(func() {
+			// never acknowledged: the isolated leader cannot reach a quorum
+			op := &ClientOp{Client: 100 + r, Kind: "put", Key: fmt.Sprintf("stale%d", r), Value: "s", Invoke: s.Steps(), Node: l, Unknown: true}
+			obs.Ops = append(obs.Ops, op)
+			resp, err := c.Write(l, put(op.Key, op.Value))
+			op.Return = s.Steps()
+			if err == nil && resp.Puts[0].Status == proto.Status_OK {
+				op.Unknown, op.OK, op.Version = false, true, resp.Puts[0].Version.VersionId
+			}
+		})
+		s.Sleep(200 * time.Millisecond)
+		c.SC.NodeBecameUnavailable(c.Nodes[l].Addr)
+		nl := ""
+		for i := 0; i < 40 && nl == ""; i++ {
+			s.Sleep(500 * time.Millisecond)
+			md, ok := c.StoredMetadata()
+			if ok && md.Leader != nil && md.Leader.Internal != l && md.Status == model.ShardStatusSteadyState {
+				if x, _ := c.LeaderByStatusExcept(l); x == md.Leader.Internal {
+					nl = x
+				}
+			}
+		}
+		if nl == "" {
+			return
+		}
+		op := &ClientOp{Client: r, Kind: "put", Key: fmt.Sprintf("acked%d", r), Value: fmt.Sprintf("a%d", r), Invoke: s.Steps(), Node: nl}
+		obs.Ops = append(obs.Ops, op)
+		resp, err := c.Write(nl, put(op.Key, op.Value))
+		op.Return = s.Steps()
+		if err != nil {
+			op.Unknown, op.Err = true, err.Error()
+		} else if resp.Puts[0].Status == proto.Status_OK {
+			op.OK, op.Version, op.Status = true, resp.Puts[0].Version.VersionId, "OK"
+		}
+		c.Heal(l)
+		// the old leader is fenced and re-attached by the coordinator's retry loop
+		s.Sleep(4 * time.Second)
+	}
+}
+
 func faultThread(c *Cluster, s *vsched.Sched, spec ScenarioSpec) {
 	switch spec.Fault {
 	case "leader-crash", "leader-crash-restart":
@@ -283,6 +348,28 @@ func faultThread(c *Cluster, s *vsched.Sched, spec ScenarioSpec) {
 			}
 			_ = c.SC.SwapNode(c.Nodes[from].Addr, c.Nodes["n4"].Addr)
 		}
+	case "swap-unreachable":
+		// the coordinator cannot reach two members of the ensemble while it swaps the third
+		if c.SC != nil {
+			md, _ := c.StoredMetadata()
+			from := ""
+			for _, e := range md.Ensemble {
+				if md.Leader == nil || e.Internal != md.Leader.Internal {
+					from = e.Internal
+				}
+			}
+			for _, e := range md.Ensemble {
+				if e.Internal != from {
+					c.CoordCut[e.Internal] = true
+				}
+			}
+			_ = c.SC.SwapNode(c.Nodes[from].Addr, c.Nodes["n4"].Addr)
+			for _, e := range md.Ensemble {
+				delete(c.CoordCut, e.Internal)
+			}
+		}
+	case "rolling-isolation":
+		rollingIsolation(c, s, specObs, 3)
 	case "leader-swap":
 		if c.SC != nil {
 			md, _ := c.StoredMetadata()
